@@ -352,8 +352,14 @@ impl Iterator for Lexer {
                 let end = self.get_pos();
                 self.consume_char();
 
+                // A lone '.' is not a directive
                 if dir_str == "." {
-                    return self.next();
+                    return Some(Err(LexError::UnexpectedToken(Box::new(Token::new(
+                        TokenType::Symbol(dir_str.clone()),
+                        dir_str,
+                        Range::new(start, end),
+                        self.source_id,
+                    )))));
                 }
 
                 Some(Token::new(
